@@ -170,10 +170,23 @@ class TrainerWorld(World):
         tiny = prop == "C08" and trainer in ("STDP", "MSTDP") and rc.random() < 0.2
         if tiny:
             cfg.update(ckind="dense", inshape=[1], outshape=[1], B=1, neuron="script", tiny=rc.randrange(256))
+        pooled = (not tiny) and trainer in ("STDP", "MSTDP", "TripletSTDP", "MSTDPET", "KernelSTDP") and rc.random() < 0.2
+        if pooled:
+            # one trainer, two cells sharing the post-synaptic neuron group, per-cell hyper-parameter overrides
+            cfg.update(ckind="dense", inshape=rc.choice([[2], [3]]), outshape=rc.choice([[1], [2]]), neuron="script", override=True, pooled=True)
+            alt = {"lr_a": rc.choice([0.5, 1.0, 0.25]) * (1 if cfg["lr_a"] >= 0 else -1), "lr_b": rc.choice([0.125, 0.75, 2.0]) * (1 if cfg["lr_b"] >= 0 else -1),
+                   "tc_a": rc.choice([2.0, 5.0, 20.0]), "tc_b": rc.choice([3.0, 8.0, 20.0]), "trace": rc.choice(["cumulative", "nearest"]),
+                   "lr_a3": rc.choice([0.05, 0.3, 1.0]), "lr_b3": rc.choice([0.05, 0.2, 1.0]), "tc_z": rc.choice([5.0, 25.0])}
+            keys = [k for k in alt if rc.random() < 0.4] or ["lr_b"]
+            cfg["cell_b"] = {k: alt[k] for k in keys}
+            cfg["inshape_b"] = rc.choice([[2], [3]])
+            cfg["wseed_b"] = rc.randrange(1 << 30)
         geom = _Geom(cfg)
         # delays
         needs = trainer in NEEDS_DELAY or trainer.startswith("cross")
         dmode = "adjusted" if needs else rc.choice(["none", "none", "frozen", "delayed"])
+        if pooled:
+            dmode = "none"
         if trainer in ("MSTDPET", "LinearHomeostasis") and dmode == "delayed":
             dmode = "frozen"
         cfg["dmode"] = dmode
@@ -210,6 +223,8 @@ class TrainerWorld(World):
                 x = [1 if ro.random() < pin else 0 for _ in range(nin)]
                 y = [1 if ro.random() < pout else 0 for _ in range(nout)]
             op = {"op": "step", "x": x, "y": y}
+            if pooled:
+                op["x_b"] = [1 if ro.random() < pin else 0 for _ in range(cfg["B"] * int(np.prod(cfg["inshape_b"])))]
             if trainer in THREE_FACTOR:
                 if cfg["reward"] == "scalar":
                     op["signal"] = ro.choice([1.0, -1.0, 0.5, -2.0, 0.0])
@@ -336,7 +351,96 @@ class TrainerWorld(World):
         cfg = desc["config"]
         if cfg["trainer"].startswith("cross"):
             return self._exec_cross(desc, ctx)
+        if cfg.get("pooled"):
+            return self._exec_pooled(desc, ctx)
         return _Run(self, desc, ctx).run()
+
+    def _exec_pooled(self, desc, ctx):
+        """one trainer, two cells of a Biclique sharing the post-synaptic population, per-cell hyper-parameters"""
+        from inferno import neural as nn_
+
+        cfg_a = dict(desc["config"])
+        cfg_b = dict(cfg_a, **cfg_a["cell_b"])
+        cfg_b["inshape"] = cfg_a["inshape_b"]
+        cfg_b["wseed"] = cfg_a["wseed_b"]
+        runs = [_Run(self, {"config": c, "ops": desc["ops"]}, ctx) for c in (cfg_a, cfg_b)]
+        facts = dict(runs[0].facts, pooled=True, differing=",".join(sorted(cfg_a["cell_b"])))
+        B, dt = cfg_a["B"], cfg_a["dt"]
+        with ctx.impl("build", facts) as reg:
+            conns = []
+            for r in runs:
+                _layer, conn, _n = self._build_layer(r.cfg, r.geom)
+                conns.append(conn)
+            nrn = _script_neuron(runs[0].geom.outshape, dt, B)
+            layer = nn_.Biclique([("c0", conns[0]), ("c1", conns[1])], [("n0", nrn)], "sum")
+            trainer = self._build_trainer(cfg_a)        # decoy defaults: every cell is governed by its overrides
+            for name, r, cn in (("a", runs[0], "c0"), ("b", runs[1], "c1")):
+                _, _, kw = self._trainer_spec(r.cfg)
+                trainer.register_cell(name, layer.get_cell(cn, "n0"), **kw)
+            layer.train()
+            trainer.train()
+        if reg.waived:
+            return
+        for r, conn in zip(runs, conns):
+            r.conn, r.nrn = conn, nrn
+            r.reset_model()
+        ctx.log("config", "pooled", cfg_a["trainer"], cfg_a["cell_b"])
+        three = cfg_a["trainer"] in THREE_FACTOR
+        nz = 0
+        for op in desc["ops"]:
+            if op["op"] == "clear":
+                ctx.fault("trainer_clear")
+                with ctx.impl("trainer.clear", facts):
+                    trainer.clear()
+                    for c in conns:
+                        c.clear()
+                    nrn.clear()
+                for r in runs:
+                    r.reset_model()
+                continue
+            xa = torch.tensor(op["x"]).reshape((B,) + runs[0].geom.inshape).bool()
+            xb = torch.tensor(op["x_b"]).reshape((B,) + runs[1].geom.inshape).bool()
+            nrn.next = torch.tensor(op["y"]).reshape((B,) + runs[0].geom.outshape).bool()
+            with ctx.impl("layer step", facts):
+                out = layer({"c0": (xa,), "c1": (xb,)})["n0"]
+            ctx.step(1, dt)
+            exps = []
+            for r, x in zip(runs, (xa, xb)):
+                pre, post = r.geom.pre(x), r.geom.post(out)
+                r.pre_hist.append(pre)
+                tnow = r.t * dt
+                r.last_pre = np.where(pre > 0, tnow, r.last_pre)
+                r.last_post = np.where(post > 0, tnow, r.last_post)
+                try:
+                    exps.append(r.expected(pre, post, op))
+                except _OffGrid:
+                    exps.append(None)       # knife-edge t_delta: this cell is not judged at this step
+                    ctx.undecided += 1
+                r.t += 1
+            p0 = [_f64(c.weight) for c in conns]
+            with ctx.impl("trainer()", facts):
+                if three:
+                    sig = op["signal"]
+                    trainer(torch.tensor(sig, dtype=torch.float32) if isinstance(sig, list) else float(sig), scale=op.get("scale", 1.0))
+                else:
+                    trainer()
+                layer.update()
+            ctx.log("step", xa, xb, out, conns[0].weight, conns[1].weight)
+            for i, (conn, ex) in enumerate(zip(conns, exps)):
+                if ex is None:
+                    continue
+                target, epos, eneg = ex
+                delta = _f64(conn.weight) - p0[i]
+                want = epos - eneg
+                tol = 3e-5 + 3e-4 * (np.abs(epos) + np.abs(eneg)) + 2e-6 * np.abs(p0[i])
+                ctx.judged += 1
+                if np.any(np.abs(delta - want) > tol):
+                    j = tuple(np.argwhere(np.abs(delta - want) > tol)[0])
+                    ctx.fail("pair_sum", dict(facts, cell="ab"[i]), f"pooled trainer, cell {'ab'[i]}: weight{j} changed by {delta[j]} but its own hyper-parameters and history give {want[j]}")
+                nz += int(np.any(delta != 0))
+        ctx.nontrivial = nz > 0
+        ctx.probe("pooled_two_cells_shared_population")
+        ctx.state(("pooled", cfg_a["trainer"], tuple(sorted(cfg_a["cell_b"])), runs[0].mode))
 
     def _exec_cross(self, desc, ctx):
         """two implementations on twin layers must produce the same updates"""
